@@ -1,0 +1,31 @@
+//go:build verif
+
+// Contracts for the verification machinery in /verif (comment-only, built only with -tags verif).
+
+package nodes
+
+// CondStatus: status of the first condition of type ct ("Unknown" when the node is nil or has none).
+//@ pred HasCond(n *corev1.Node, ct corev1.NodeConditionType, s corev1.ConditionStatus) :=
+//@     n != nil && exists i int :: 0 <= i && i < len(n.Status.Conditions) && n.Status.Conditions[i].Type == ct
+//@         && n.Status.Conditions[i].Status == s
+//@         && (forall j int :: 0 <= j && j < i ==> n.Status.Conditions[j].Type != ct)
+//@ pred NoCond(n *corev1.Node, ct corev1.NodeConditionType) :=
+//@     n == nil || forall i int :: 0 <= i && i < len(n.Status.Conditions) ==> n.Status.Conditions[i].Type != ct
+
+//@ func conditionStatus
+//@   ensures HasCond(n, ct, result) || (NoCond(n, ct) && result == corev1.ConditionUnknown)
+//@   modifies nothing
+//@   loop 1 invariant forall j int :: 0 <= j && j < iter ==> n.Status.Conditions[j].Type != ct
+
+// NetUnavail: the node carries NetworkUnavailable=True.
+//@ pred NetUnavail(n *corev1.Node) := HasCond(n, corev1.NodeNetworkUnavailable, corev1.ConditionTrue)
+
+//@ func IsNetworkUnavailable
+//@   ensures result == NetUnavail(n)
+//@   modifies nothing
+
+//@ pred Excluded(n *corev1.Node) := n != nil && corev1.LabelNodeExcludeBalancers in n.Labels
+
+//@ func IsNodeExcludedFromBalancers
+//@   ensures result == Excluded(n)
+//@   modifies nothing
